@@ -4,6 +4,7 @@ import cfg
 from symex import walk, show
 
 PARTIAL_EQ = ("std::cmp::PartialEq::eq", "std::cmp::PartialEq::ne")
+RAW_TERMS = {}
 
 
 # --------------------------------------------------------------------------- identity (A3)
@@ -533,6 +534,7 @@ def _bexpr(ctx, se, t, depth=0):
             if hb is not None:
                 return bsubst(hb, args)
             return ("call", t[1], args)
+    RAW_TERMS[show(t, maxdepth=4)] = t        # (for rules that need the term behind a raw leaf)
     return ("raw", show(t, maxdepth=4))
 
 
